@@ -27,6 +27,17 @@ func NewCache(capacity uint64, withCallback bool) *Cache {
 	return lru.NewCache[int, *Val](capacity)
 }
 
+// NewCacheWith builds a real cache with the given delete callback (nil: none).
+func NewCacheWith(capacity uint64, cb func(int, *Val)) *Cache {
+	if cb == nil {
+		return lru.NewCache[int, *Val](capacity)
+	}
+	return lru.NewCache[int, *Val](capacity, lru.WithDeleteCallback(func(k int, v *Val) {
+		CallbackCalls.Add(1)
+		cb(k, v)
+	}))
+}
+
 func valID(v *Val) int {
 	if v == nil {
 		return -1
